@@ -222,14 +222,18 @@ def run_shard(shard, tier, seed, acc):
             for o2 in orders:
                 if o1 == o2:
                     continue
-                x = OBDD(o1[0], o1)
-                y = OBDD(o2[0], o2)
-                for sym, pf, of in OPS:
-                    r = call(of, x, y)
-                    acc.ev(1, 1)
-                    if not (r[0] == 'exc' and r[1] == 'RuntimeError'):
-                        acc.violation('ordering-mismatch-accepted',
-                                      {'o1': o1, 'o2': o2, 'op': sym}, 'RuntimeError', r[:2])
+                v1, v2 = o1[0], o2[0]
+                for e1 in (v1, '0', '1', '%s & ~%s' % (v1, v1), '%s | ~%s' % (v1, v1), '~%s' % v1):
+                    for e2 in (v2, '0', '1', '%s & ~%s' % (v2, v2)):
+                        x = OBDD(e1, o1)
+                        y = OBDD(e2, o2)
+                        for sym, pf, of in OPS:
+                            r = call(of, x, y)
+                            acc.ev(1, 1)
+                            if not (r[0] == 'exc' and r[1] == 'RuntimeError'):
+                                acc.violation('ordering-mismatch-accepted',
+                                              {'o1': o1, 'o2': o2, 'op': sym, 'e1': e1, 'e2': e2},
+                                              'RuntimeError', r[:2])
             for e in ('z', 'a & z', '~z | a', 'z & 0', '(a | b) & (c | z)'):
                 r = call(OBDD, e, o1)
                 acc.ev(1, 1)
@@ -258,8 +262,8 @@ def replay(art):
         r = call(OBDD, c['expr'], c['order'])
         return {'violates': not (r[0] == 'exc' and r[1] == 'RuntimeError'), 'got': r[:2]}
     if kind.startswith('ordering'):
-        x = OBDD(c['o1'][0], c['o1'])
-        y = OBDD(c['o2'][0], c['o2'])
+        x = OBDD(c.get('e1', c['o1'][0]), c['o1'])
+        y = OBDD(c.get('e2', c['o2'][0]), c['o2'])
         of = [o for o in OPS if o[0] == c['op']][0][2]
         r = call(of, x, y)
         return {'violates': not (r[0] == 'exc' and r[1] == 'RuntimeError'), 'got': r[:2]}
